@@ -363,7 +363,7 @@ theorem writer_close_tie {α δ : Type} {S : DstSpec} (A : AEAD) (k : Bytes) (E 
     (w : stream_Writer α δ) (m : Writer S) (h : WRel D w m) (hctr : m.ctr + 2 < 2 ^ 88) :
     ∃ res, stream_Writer_Close E.seal_ D.write w = .ok res ∧
       let mc := m.close A 65536 (2 ^ 88) k
-      wrErrRel res.1 D.eW mc.2 ∧
+      wrErrRel res.1 D.eW mc.2 ∧ WRel D res.2 mc.1 ∧
       (mc.2 = none → D.absD res.2.dst = mc.1.dst) ∧
       wrErrRel res.2.err D.eW mc.1.err := by
   cases hme : m.err with
@@ -372,7 +372,7 @@ theorem writer_close_tie {α δ : Type} {S : DstSpec} (A : AEAD) (k : Bytes) (E 
     have hwe := wrErr_some_ne he
     refine ⟨(w.err, w), ?_, ?_⟩
     · simp only [stream_Writer_Close, hwe, if_true, pure, Except.pure]
-    · simp only [Writer.close, hme]; exact ⟨he, (fun h0 => by cases h0), he⟩
+    · simp only [Writer.close, hme]; exact ⟨he, h, (fun h0 => by cases h0), he⟩
   | none =>
     have hwe : w.err = none := by have := h.err; rw [hme] at this; exact this
     have hwe' : (w.err != none) = false := by rw [hwe]; rfl
@@ -385,12 +385,53 @@ theorem writer_close_tie {α δ : Type} {S : DstSpec} (A : AEAD) (k : Bytes) (E 
     cases ok with
     | true =>
       simp only [if_true, bne_self_eq_false, Bool.false_eq_true, if_false, pure, Except.pure]
-      exact ⟨_, rfl, rfl, fun _ => hd2, rfl⟩
+      refine ⟨_, rfl, rfl, ?_, fun _ => hd2, rfl⟩
+      exact ⟨hb2, hlo2, by show 0 ≤ w2.unwritten_hi ∧ w2.unwritten_hi ≤ 65536; omega,
+        by show [] = w2.buf.take w2.unwritten_hi.toNat; rw [hhi2]; rfl, hd2, rfl, fun h0 => by cases h0⟩
     | false =>
       simp only [Bool.false_eq_true, if_false, pure, Except.pure]
       have hne : (some D.eW != none) = true := rfl
       rw [if_pos hne]
-      exact ⟨_, rfl, rfl, (fun h0 => by cases h0), rfl⟩
+      refine ⟨_, rfl, rfl, ?_, (fun h0 => by cases h0), rfl⟩
+      exact ⟨hb2, hlo2, by show 0 ≤ w2.unwritten_hi ∧ w2.unwritten_hi ≤ 65536; omega,
+        by show [] = w2.buf.take w2.unwritten_hi.toNat; rw [hhi2]; rfl, hd2, rfl, fun h0 => by cases h0⟩
+
+/-- after `Close` — successful or not — every further `Write` and `Close` is refused and touches
+    nothing: the translated writer is stuck exactly as the model's is (`Props.C13.writer_sticky`).
+    Stated for any state related to a model state with a sticky error (which is what
+    `writer_close_tie` leaves: see `writer_close_err_some` below): the translated `Write` returns count 0,
+    the stored error and the UNCHANGED struct, the translated `Close` the stored error and the
+    unchanged struct; the stored error is not `nil` and corresponds to the model's; and the model
+    does the same (`m.write … = (m, 0, some e)`, `m.close … = (m, some e)`). -/
+theorem writer_after_close_stuck {α δ : Type} {S : DstSpec} (A : AEAD) (k : Bytes) (E : AeadEnv α A k)
+    (D : DstEnv δ S) (w : stream_Writer α δ) (m : Writer S) (h : WRel D w m) (e : Outcome)
+    (hme : m.err = some e) :
+    w.err ≠ none ∧ wrErrRel w.err D.eW (some e) ∧
+    (∀ p, stream_Writer_Write E.seal_ D.write w p = .ok (0, w.err, w) ∧
+          m.write A 65536 (2 ^ 88) k p = (m, 0, some e)) ∧
+    stream_Writer_Close E.seal_ D.write w = .ok (w.err, w) ∧
+    m.close A 65536 (2 ^ 88) k = (m, some e) := by
+  have he := h.err; rw [hme] at he
+  have hwe := wrErr_some_ne he
+  refine ⟨by rw [bne_iff_ne] at hwe; exact hwe, he, fun p => ⟨?_, ?_⟩, ?_, ?_⟩
+  · simp only [stream_Writer_Write, hwe, if_true, pure, Except.pure]
+  · simp only [Writer.write, hme]
+  · simp only [stream_Writer_Close, hwe, if_true, pure, Except.pure]
+  · simp only [Writer.close, hme]
+
+/-- the model's writer has a sticky error after ANY `Close` (so `writer_after_close_stuck` applies
+    to the pair of states `writer_close_tie` returns) -/
+theorem writer_close_err_some {S : DstSpec} (A : AEAD) (C L : Nat) (k : Bytes) (m : Writer S) :
+    ∃ e, (m.close A C L k).1.err = some e := by
+  unfold Writer.close
+  cases hme : m.err with
+  | some e => exact ⟨e, hme⟩
+  | none =>
+    dsimp only
+    generalize m.flush A C L k true = r
+    rcases r with ⟨w', _ | e⟩
+    · exact ⟨_, rfl⟩
+    · exact ⟨_, rfl⟩
 
 end GoTie
 end AgeModel
